@@ -170,10 +170,11 @@ PROPS["C10"] = {
     "level": "exploration",
     "plan": zb_plan(("release", "miri")),
     "rule": ("EVERY string over the 10-symbol alphabet {a Z 0 _ - . : / e-acute NUL} up to length 5 (quick; 7 thorough) plus 254..257-byte "
-             "constructions and UUID-shaped GUIDs, for the 9 validated string types, through TryFrom<&str>, TryFrom<String>, and (sampled) "
-             "from_static_str, TryFrom<Value> and serde Deserialize from D-Bus bytes; accept/reject compared with the reference "
+             "constructions, UUID-shaped GUIDs, and every ASCII byte (plus one two-byte character) substituted for and inserted before every "
+             "position of one valid specimen per type (all construction paths), for the 9 validated string types, through TryFrom<&str>, "
+             "TryFrom<String>, and (sampled) from_static_str, TryFrom<Value> and serde Deserialize from D-Bus bytes; accept/reject compared with the reference "
              "recognisers; distinct = distinct strings"),
-    "gates": {"quick": {"evaluations": 500000, "distinct": 100000}, "thorough": {"evaluations": 50000000, "distinct": 10000000}},
+    "gates": {"quick": {"evaluations": 500000, "distinct": 100000, "substituted_specimens": 15000}, "thorough": {"evaluations": 50000000, "distinct": 10000000, "substituted_specimens": 15000}},
     "exhaustive_note": "all strings over the alphabet up to classes.exhaustive_max_len were enumerated (count in classes.exhaustive_strings_total)",
     "assumptions": ["UniqueName additionally accepts the literal org.freedesktop.DBus (documented special case)",
                     "property names: any 1..255-byte string (the specification gives no grammar; this is what the library documents)"],
